@@ -77,6 +77,7 @@ def make_generated(rng, kind):
         n = rng.choice([2, 3, len(names)])
         w = W.gen_core(rng, n_chroms=rng.choice([1, 2]), n_samples=n, sample_names=names, kinds=["snv"], length=rng.choice([600, 1000]))
         W.gen_library(rng, w, "L0", depth=rng.choice([3, 5, 8]), read_len=(150, 500))
+        W.add_alt_truth(rng, w, "alt", flip_rate=0.5)
         # the same read names in different read groups
         per = {}
         for r in w["libs"]["L0"]["reads"]:
@@ -131,6 +132,20 @@ def make_generated(rng, kind):
         out.append(dict(base, name="gen-haplotag-cram", subcommand="haplotag",
                         argv=["haplotag", "-o", "{out:tagged.cram}", "--output-haplotag-list", "{out:list.tsv}", "--reference", "{W}/ref.fa",
                               "--output-threads", "{othreads}", "{W}/phased.vcf.gz", "{W}/reads.bam"]))
+        # Two directories holding files of the same names and different content (two samples' working directories): the same
+        # command line in each. Whatever a run caches outside its outputs (temporary directory, home) must not leak from one
+        # to the other. The plain-text VCF is rejected by haplotag on the present tree (exit 1 on every node).
+        files += [{"kind": "vcfgz", "name": "dirA/phased.vcf.gz", "phased": "PS", "nsets": 1},
+                  {"kind": "vcfgz", "name": "dirB/phased.vcf.gz", "phased": "PS", "nsets": rng.choice([2, 3]), "truth": "alt"},
+                  {"kind": "vcf", "name": "dirA/phased.vcf", "phased": "PS", "nsets": 1},
+                  {"kind": "vcf", "name": "dirB/phased.vcf", "phased": "PS", "nsets": rng.choice([2, 3]), "truth": "alt"}]
+        for d in ("dirA", "dirB"):
+            out.append(dict(base, name="gen-haplotag-sibling-%s" % d, subcommand="haplotag",
+                            argv=["haplotag", "-o", "{out:tagged.bam}", "--output-haplotag-list", "{out:list.tsv}", "--reference", "{W}/ref.fa",
+                                  "{W}/%s/phased.vcf.gz" % d, "{W}/reads.bam"]))
+            out.append(dict(base, name="gen-haplotag-sibling-plain-%s" % d, subcommand="haplotag", expect_exit=1,
+                            argv=["haplotag", "-o", "{out:tagged.bam}", "--output-haplotag-list", "{out:list.tsv}", "--reference", "{W}/ref.fa",
+                                  "{W}/%s/phased.vcf" % d, "{W}/reads.bam"]))
         out.append(dict(base, name="gen-haplotag-collide-gzlist", subcommand="haplotag",
                         argv=["haplotag", "-o", "{out:tagged.bam}", "--output-haplotag-list", "{out:list.tsv.gz}", "--no-reference",
                               "--tag-supplementary", "--output-threads", "{othreads}", "{W}/phased.vcf.gz", "{W}/reads.bam"]))
@@ -197,6 +212,22 @@ def make_generated(rng, kind):
         w = W.gen_core(rng, n_chroms=1, n_samples=rng.choice([1, 2, 2]), ploidy=ploidy, kinds=["snv"], length=rng.choice([2000, 3000]),
                        n_variants=rng.choice([20, 30, 45]), het_rate=0.9, min_gap=25)
         W.gen_library(rng, w, "L0", depth=rng.choice([20, 30, 40]), read_len=(200, 500), cuts=rng.choice([2, 3, 4, 5]))
+        if rng.random() < 0.5:
+            # non-contiguous linkage: gapped alignments (one long deletion / skipped region) connect variant groups that are far apart
+            # and say nothing about the groups in between, so that a block can hang together only through variants outside any
+            # interval somebody might cut out of the matrix
+            L0 = len(w["chroms"][0]["seq"])
+            extra = []
+            for s_ in w["samples"]:
+                for j in range(rng.choice([12, 30, 60])):
+                    a = rng.randrange(0, L0 // 2)
+                    b = min(L0, a + rng.randrange(500, L0))
+                    if b - a < 420:
+                        continue
+                    ga, gb = a + rng.randrange(100, 200), b - rng.randrange(100, 200)
+                    extra.append({"name": "L0_gap_%s_%d" % (s_, j), "sample": s_, "chrom": 0, "start": a, "end": b, "hap": rng.randrange(ploidy),
+                                  "mapq": 60, "flag": 0, "gaps": [[ga, gb]]})
+            w["libs"]["L0"]["reads"] += extra
         files = [{"kind": "ref", "name": "ref.fa"}, {"kind": "bam", "lib": "L0", "name": "reads.bam"}, {"kind": "vcf", "name": "in.vcf"}]
         base = {"world": W.clean_world(w), "files": files, "stdout": None, "expect_exit": 0}
         out.append(dict(base, name="gen-polyphase-blocks", subcommand="polyphase",
@@ -355,6 +386,7 @@ def materialise_world(sc, dirpath):
         p = os.path.join(dirpath, f["name"])
         if os.path.exists(p):
             continue
+        os.makedirs(os.path.dirname(p), exist_ok=True)
         if f["kind"] == "ref":
             W.write_reference(w, p)
         elif f["kind"] == "bam":
@@ -405,7 +437,8 @@ def draw_config(rng, reference=False, allow=None):
     if "env" in allow:
         # the process environment is not an input either
         cfg["env"] = rng.choice([{}, {}, {"TZ": "Pacific/Kiritimati"}, {"TZ": "America/St_Johns"}, {"LC_ALL": "C"}, {"LC_ALL": "C.UTF-8", "LANG": "C.UTF-8"},
-                                 {"COLUMNS": "37", "LINES": "9"}, {"TMPDIR": "{node}/tmp"}, {"HOME": "{node}/home"}, {"USER": "someoneelse", "LOGNAME": "someoneelse"}])
+                                 {"COLUMNS": "37", "LINES": "9"}, {"TMPDIR": "{node}/tmp"}, {"HOME": "{node}/home"},
+                                 {"TMPDIR": "{node}/tmp", "HOME": "{node}/home"}, {"TMPDIR": "{node}/tmp", "HOME": "{node}/home"}, {"USER": "someoneelse", "LOGNAME": "someoneelse"}])
     if "debug" in allow:
         cfg["debug"] = rng.random() < 0.3  # whatshap --debug <subcommand>: verbosity is not an input
     return cfg
